@@ -41,6 +41,8 @@ class Tr:
         return (isinstance(e, ast.Call) and isinstance(e.func, ast.Name) and e.func.id == "float" and len(e.args) == 1
                 and isinstance(e.args[0], ast.Constant) and e.args[0].value in ("inf", "Inf", "infinity"))
 
+    parents = None             # {alias: Tr of the parent class} for calls `Alias.method(self, ...)` (inlined)
+    enum_strs = None           # {"Semantics.X": "value"}: members of a string-valued enumeration
     offline = False            # True while translating the offline visitor (node / args / self.ast accessors allowed)
     interp = False             # True while translating methods of DiscreteTimeInterpreter (exact unit arithmetic)
 
@@ -67,7 +69,44 @@ class Tr:
             return "(.tuple %s %s)" % (self.expr(e.elts[0]), self.expr(e.elts[1]))
         return None
 
+    def find_method(self, name):
+        """A method of this class or, failing that, of a parent class: (translator of the defining class, FunctionDef)."""
+        if name in self.methods:
+            return self, self.methods[name]
+        for ptr in (self.parents or {}).values():
+            r = ptr.find_method(name)
+            if r is not None:
+                return r
+        return None
+
+    def inline_call(self, owner, m, args, depth, target=None):
+        """Statements of `m` (a method of the translator `owner`) with its parameters bound to `args`; its final
+        `return e` becomes `target = e`."""
+        params = [x.arg for x in m.args.args[1:]]
+        if len(params) != len(args) or depth > 3:
+            return "(.unsupported %s)" % q("call of " + m.name)
+        items = ["(.setLoc %s %s)" % (q(p_), self.expr(a_)) for p_, a_ in zip(params, args) if not (isinstance(a_, ast.Name) and a_.id == p_)]
+        body = list(m.body)
+        ret = None
+        if body and isinstance(body[-1], ast.Return):
+            ret = body.pop().value
+        if any(isinstance(x, ast.Return) for st in body for x in ast.walk(st)):
+            return "(.unsupported %s)" % q("return inside " + m.name)
+        items.append(owner.block(body, depth + 1))
+        if target is not None:
+            items.append("(.setLoc %s %s)" % (q(target), owner.expr(ret) if ret is not None else ".noneLit"))
+        return self.seq(items)
+
     def expr(self, e):
+        if self.enum_strs and isinstance(e, ast.Attribute) and src(e) in self.enum_strs:
+            return "(.strLit %s)" % q(self.enum_strs[src(e)])
+        if self.parents is not None and isinstance(e, ast.UnaryOp) and isinstance(e.op, ast.Not) and isinstance(e.operand, ast.Attribute) \
+                and src(e.operand.value) == "self":
+            return "(.un .not (.un .truthy (.attr %s)))" % q(e.operand.attr)       # `not self.xs` on a list attribute
+        if self.parents is not None and isinstance(e, ast.IfExp):
+            return "(.ifExp %s %s %s)" % (self.expr(e.test), self.expr(e.body), self.expr(e.orelse))
+        if self.parents is not None and isinstance(e, ast.Constant) and e.value is True:
+            return "(.bin .eq (.int 0) (.int 0))"
         if self.interp:
             r = self.interp_expr(e)
             if r is not None:
@@ -233,6 +272,23 @@ class Tr:
     horizon = False
 
     def stmt(self, s, depth):
+        if self.parents is not None:
+            call = None
+            target = None
+            if isinstance(s, ast.Expr) and isinstance(s.value, ast.Call):
+                call = s.value
+            elif isinstance(s, ast.Assign) and len(s.targets) == 1 and isinstance(s.targets[0], ast.Name) and isinstance(s.value, ast.Call):
+                call, target = s.value, s.targets[0].id
+            if call is not None and isinstance(call.func, ast.Attribute) and isinstance(call.func.value, ast.Name) and not call.keywords:
+                owner_name, mname, args = call.func.value.id, call.func.attr, list(call.args)
+                if owner_name in self.parents and args and isinstance(args[0], ast.Name) and args[0].id == "self":
+                    r = self.parents[owner_name].find_method(mname)            # Parent.method(self, ...)
+                    if r is not None:
+                        return self.inline_call(r[0], r[1], args[1:], depth, target)
+                if owner_name == "self" and mname not in ("reset", "__init__"):
+                    r = self.find_method(mname)                                # self.method(...), possibly inherited
+                    if r is not None:
+                        return self.inline_call(r[0], r[1], args, depth, target)
         if self.horizon and isinstance(s, ast.Assign) and len(s.targets) == 1 and src(s.targets[0]) == "self.horizons[node]":
             return ".skip"                       # the table of sub-formula horizons is not part of the value computed
         if self.offline:
@@ -425,6 +481,62 @@ def generate_horizon():
     lines.append("def methods : List (String × OffMethod) := [%s]" % ", ".join("(%s, %s)" % (q(n), n) for n in names))
     lines.append("")
     lines.append("end Rtamt.Py.Gen.Hor")
+    return "\n".join(lines) + "\n"
+
+
+IAON_FILE = "rtamt/semantics/iastl/discrete_time/online/predicate_operation.py"
+OUT_IAON = os.path.join(os.path.dirname(HERE), "lean", "Rtamt", "Py", "GeneratedIAOn.lean")
+
+
+def enum_strings(path, cls_name):
+    out = {}
+    tree = ast.parse(open(os.path.join(REPO, path)).read())
+    for n in tree.body:
+        if isinstance(n, ast.ClassDef) and n.name == cls_name:
+            for st in n.body:
+                if isinstance(st, ast.Assign) and len(st.targets) == 1 and isinstance(st.targets[0], ast.Name) \
+                        and isinstance(st.value, ast.Constant) and isinstance(st.value.value, str):
+                    out["%s.%s" % (cls_name, st.targets[0].id)] = st.value.value
+    return out
+
+
+def generate_iaon():
+    """The interface-aware PredicateOperation of the discrete-time online monitor: a subclass of the standard one; calls of the
+    parent's methods (`StlPredicateOperation.update(self, ...)`) and of inherited methods (`self.sat(...)`) are inlined."""
+    tree = ast.parse(open(os.path.join(REPO, IAON_FILE)).read())
+    cls = [n for n in tree.body if isinstance(n, ast.ClassDef)][0]
+    parents = {}
+    for n in tree.body:
+        if isinstance(n, ast.ImportFrom) and n.module and n.module.startswith("rtamt.semantics.stl.discrete_time.online"):
+            ptree = ast.parse(open(os.path.join(REPO, n.module.replace(".", "/") + ".py")).read())
+            for a in n.names:
+                pc = [c for c in ptree.body if isinstance(c, ast.ClassDef) and c.name == a.name]
+                if pc:
+                    parents[a.asname or a.name] = Tr(pc[0])
+    tr = Tr(cls)
+    tr.parents = parents
+    tr.enum_strs = enum_strings("rtamt/semantics/enumerations/options.py", "Semantics")
+    for ptr in parents.values():
+        ptr.parents = {}
+    skip = "{ params := [], body := .unsupported \"missing method\", ret := none }"
+    ms = {}
+    for k in ("__init__", "reset", "update"):
+        r = tr.find_method(k)
+        if r is None:
+            ms[k] = skip
+        elif r[0] is tr:
+            ms[k] = tr.method(k)
+        else:
+            ms[k] = r[0].method(k)                 # inherited unchanged
+    lines = ["/- GENERATED by harness/py2lean.py from %s of /repo on every run - do not edit. -/" % IAON_FILE,
+             "import Rtamt.Py.Sem", "", "namespace Rtamt.Py.Gen", "open Rtamt Rtamt.Py", "",
+             "/-- `%s` of the interface-aware discrete-time online monitor -/" % cls.name,
+             "def IAPredicateOperation : Class :=",
+             "  { name := %s," % q("IA" + cls.name),
+             "    init := %s," % ms["__init__"],
+             "    reset := %s," % ms["reset"],
+             "    update := %s," % ms["update"],
+             "    sat := none }", "", "end Rtamt.Py.Gen"]
     return "\n".join(lines) + "\n"
 
 
@@ -681,6 +793,7 @@ def main():
     write_if_changed(OUT_PAST, generate_past())
     write_if_changed(OUT_ONCTOR, generate_onctor())
     write_if_changed(OUT_IAOFF, generate_iaoff())
+    write_if_changed(OUT_IAON, generate_iaon())
     txt = generate()
     old = open(OUT).read() if os.path.exists(OUT) else None
     if txt != old:
